@@ -183,7 +183,7 @@ func main() {
 			o.SolverS, o.MaxQueryS, o.Unknowns, o.Steps = res.Stats.Seconds, res.Stats.MaxQuery, res.Unknowns, res.Steps
 			o.Samples, o.WallS, o.Schedules, o.MaxDepth, o.Incomplete = res.Samples, res.Wall, res.Schedules, res.MaxDepthSeen, res.Incomplete
 		}
-		fmt.Fprintf(os.Stderr, "  [values: %d calls %.2fs; solver %.2fs]\n", res.Stats.ValueCalls, res.Stats.ValueSeconds, res.Stats.Seconds)
+
 		fmt.Fprintf(os.Stderr, "%s: paths=%d ok=%d infeasible=%d violations=%d bound=%v unsupported=%v queries=%d unknown=%d wall=%.1fs\n",
 			sp.Entry, o.Paths, o.PathsOK, o.Infeasible, len(o.Violations), o.BoundHits, o.Unsupported, o.Queries, o.QUnknown+o.Unknowns, o.WallS)
 		for _, v := range o.Violations {
